@@ -331,6 +331,31 @@ CHECKS["C12"] = {
 # solver-chosen name - BTreeMap<&str, Method> insertion plus the recursive drop glue of the AST types.
 # See DESIGN.md section 5.
 
+CHECKS["C02"] = {
+    "design_ref": "3/C02",
+    "harnesses": [
+        H("c02_cut%d" % c, mod="verif_lib::c01", tiers=t, timeout=(2400, 7200), functions=HANDLE_FUNCS,
+          symbolic="per message: number of replies the implementation writes (0..2)",
+          bounds="stream 'm' NUL 'm' NUL 't' fed whole vs. in two chunks cut at byte %d (%s), tail re-fed; unwind 12" % (c, d),
+          stubs=STUB_HANDLE, loop_rules=HANDLE_LOOPS, witness="search")
+        for c, d, t in [(0, "empty first chunk", ("thorough",)), (1, "inside the first message", ("quick", "thorough")),
+                        (2, "on the message boundary", ("quick", "thorough")), (3, "inside the second message", ("quick", "thorough")),
+                        (4, "after the last complete message", ("thorough",)), (5, "whole stream first", ("thorough",))]
+    ] + [
+        # the upgrade hand-over clause is decided by the C01 harnesses' P:c02.* assertions
+        handle_h("c01_k2_dd", 2, "[dispatched, dispatched] (upgrade hand-over clause)", ("quick", "thorough")),
+        handle_h("c01_k3_ddd", 3, "[dispatched x3] (upgrade hand-over clause)", ("thorough",)),
+    ],
+    "assumptions": CHECKS["C01"]["assumptions"] + [
+        "one cut point per harness instance, every structural position of the cut; k cuts follow by induction on the "
+        "single-cut lemma (stated, not checked)",
+        "messages larger than the internal buffer: BufReader capacity is 4 here and the 5-byte stream crosses it; the "
+        "real 8 KiB capacity is a constant of std",
+        "the listen() worker discards the tail handle() returns after an upgrade (server.rs: Ok((_, i))); listen() cannot "
+        "be compiled by Kani 0.68 (DESIGN P15), so that call site is outside the check",
+    ],
+}
+
 CHECKS["C06"] = {
     "design_ref": "3/C06",
     "harnesses": [
